@@ -216,3 +216,30 @@ def obs_year(rep, prog, rule="OBS-YEAR"):
                       "into 19xx/20xx" % ", ".join("+%d at line %s" % b_ for b_ in bad), f.loc())
     else:
         rep.ok(rule, "parse_year", how="%d adjustments, each under a switch on the digit count" % len(adds), loc=f.loc())
+
+
+def quote_agree(rep, prog, rule="QUOTE-AGREE"):
+    """POSIX TZ abbreviations: the printer leaves an abbreviation unquoted only if the unquoted parser reads it back whole"""
+    rep.rule(rule, "shared::posix: parse_unquoted_abbreviation consumes bytes while a character classifier accepts them (ASCII "
+                   "letters); every other abbreviation the quoted form can carry (digits, '+', '-') must be written inside <...>. "
+                   "AbbreviationDisplay therefore decides on quoting with the same classifier the unquoted parser loops on (sibling "
+                   "agreement on the classifier function): a printer that quotes only for '+'/'-' writes <ABC1>5 as ABC15, which "
+                   "parses back as the zone ABC at offset 15")
+    for crate in ("jiff",):
+        pf = [f for f in prog.fns.values() if f.crate == crate and not f.is_closure and f.path.endswith("::parse_unquoted_abbreviation")]
+        df = [f for f in prog.fns.values() if f.crate == crate and "AbbreviationDisplay<S> as core::fmt::Display>::fmt" in f.path]
+        if not pf or not df:
+            rep.anchor_missing("shared::posix parse_unquoted_abbreviation / AbbreviationDisplay::fmt")
+            return
+        cls = lambda fs: sorted({t.get("path", "").rsplit("::", 1)[-1] for f in fs for _, t in mir.iter_calls(f)
+                                 if t.get("path", "").rsplit("::", 1)[-1].startswith("is_ascii_") or t.get("path", "").rsplit("::", 1)[-1] in ("is_alphabetic", "is_alphanumeric")})
+        want, got = cls(pf), cls(df)
+        key = "abbreviation quoting"
+        if want and got == want:
+            rep.ok(rule, key, how="printer and unquoted parser both classify with %s" % want, loc=df[0].loc())
+        elif not want:
+            rep.violation(rule, key, "anchor missing: the unquoted parser no longer loops on a character classifier", pf[0].loc())
+        else:
+            rep.violation(rule, key, "the unquoted parser accepts characters by %s, the printer decides on quoting by %s: an abbreviation "
+                          "with a character the unquoted parser stops at (a digit) is printed without <...> and the digits are read as "
+                          "the offset (<ABC1>5 prints as ABC15)" % (want, got or "comparisons with '+' and '-' only"), df[0].loc())
